@@ -415,7 +415,7 @@ func init() {
 				calls = 60
 			}
 			for i := 0; i < calls; i++ {
-				cs = append(cs, CaseSpec{Kind: "live", P: map[string]int64{"call": 1, "slow_ms": int64(2 + i%8), "tcp_ms": int64(5 * (i % 4)), "warm": int64(30 + 10*(i%5))}, S: map[string]string{"mode": "suspend-call"}})
+				cs = append(cs, CaseSpec{Kind: "live", P: map[string]int64{"call": 1, "slow_ms": int64(i % 4), "tcp_ms": int64(5 * (i % 4)), "warm": int64(20 + 5*(i%4))}, S: map[string]string{"mode": "suspend-call"}})
 			}
 			for i := 0; i < 2*raceSoaks(tier); i++ {
 				mode := []string{"lonely-self", "absent"}[i%2]
